@@ -209,6 +209,9 @@ def _none_only_when_disabled(ctx, fn_path):
     return True, 'helper %s returns None only in the Disabled arm' % fn_path
 
 
+BODY_READERS = {'collect', 'frame', 'poll_frame', 'to_bytes', 'into_data', 'data_ref', 'aggregate'}
+
+
 def r2_sole_constructors(ctx):
     ctx.rule('C14.R2', 'P3/P5/P7: BufferedBody{..} is constructed only in BufferedBody::extract, _extract_with_limit (and the derived '
              'Clone); in extract the unlimited collect is control-dependent on BodySizeLimit::Disabled (directly, or through a helper '
@@ -228,6 +231,17 @@ def r2_sole_constructors(ctx):
                 derived_clone = b.raw.get('impl_trait') == 'core::clone::Clone'
                 ctx.ob('C14.R2', 'constructor|%s' % b.nroot.replace('pavex::request::body::', ''), b.nroot in allowed or derived_clone,
                        b.loc(bb, st), 'BufferedBody constructed in %s' % b.nroot)
+                if not derived_clone:
+                    # what is put inside: the bytes read from the body, on every construction (no "there is no body anyway" shortcut: whether a
+                    # request carries a body is the transport's business - an HTTP/2 stream has one without any Content-Length)
+                    o = rv['ops'][rv.get('fields', ['bytes']).index('bytes')] if 'bytes' in rv.get('fields', []) else rv['ops'][0]
+                    pl = op_place(o)
+                    readers = []
+                    if pl is not None:
+                        sl, _ = backward_slice(b, pl['l'], Defs(b))
+                        readers = sorted({(c or '').split('::')[-1].split('<')[0] for c, _, _ in slice_calls(sl)} & BODY_READERS)
+                    ctx.ob('C14.R2', 'bytes-are-read-from-the-body|%s' % b.nroot.replace('pavex::request::body::', ''), bool(readers), b.loc(bb, st),
+                           'the bytes put into this BufferedBody derive from %s' % (readers or 'NO read of the request body (a constant or an argument)'))
     ctx.floor('C14.R2', 'BufferedBody construction sites', n, 2)
     ex = [b for b in ctx.fb.bodies_of_item(CR, BB + '::extract') if b.is_coroutine]
     ex = ctx.need('C14.R2', 'coroutine body of BufferedBody::extract', ex[0] if len(ex) == 1 else None)
